@@ -103,6 +103,7 @@ struct dfrh : basic_policy<dfrh, def_rtti, fast_perfect_hash<dfrh>, vptr_vector<
 // derived from the stock policies the way users do it
 struct dbg : policy::debug::rebind<dbg>::replace<policy::rtti, dyn_rtti> {};
 struct rel : policy::release::rebind<rel>::replace<policy::rtti, dyn_rtti> {};
+struct rem : policy::debug::rebind<rem>::replace<policy::rtti, dyn_rtti>::remove<policy::trace_output> {};
 // std rtti (real type_info addresses), stock configurations
 struct stdd : policy::debug::rebind<stdd> {};
 struct stdr : policy::release::rebind<stdr> {};
